@@ -3,7 +3,7 @@
 import json, os, subprocess
 
 V = "/verif"
-HOOK_COMMITS = ["21f0a99"]
+HOOK_COMMITS = ["21f0a99", "f5299b9"]
 
 TECH = "deterministic simulation of the real server on simrt (seeded schedules, virtual time, in-memory transport with fault injection); "
 TRUST = ("Trusted base: simrt's models of Mutex/Condvar/mpsc/atomics (sequentially consistent; Arc stays std), of the virtual clock and of the stream transport "
